@@ -293,6 +293,8 @@ impl Runtime {
                 let mut range = range.clone();
                 if let Some((string, columns)) = self.listing.list_line(&mut range) {
                     self.state = State::Listing(range);
+                    // A listed line ends with a line feed: the cursor is back at column 0.
+                    self.print_col = 0;
                     return Event::List((string, columns));
                 }
                 self.state = State::Running;
@@ -580,6 +582,7 @@ impl Runtime {
     }
 
     fn r#cls(&mut self) -> Result<Event> {
+        self.print_col = 0;
         Ok(Event::Cls)
     }
 
